@@ -1204,7 +1204,7 @@ impl Sim {
                 self.seq += 1;
                 let seq = self.seq;
                 let sref = self.slots.get(refslot).copied().flatten();
-                let sref2 = if kind == CK::Trig { refslot2.and_then(|s| self.slots.get(s).copied().flatten()).filter(|e| Some(*e) != sref) } else { None };
+                let sref2 = if matches!(kind, CK::Trig | CK::Unit) { refslot2.and_then(|s| self.slots.get(s).copied().flatten()).filter(|e| Some(*e) != sref) } else { None };
                 let authorized = self.authorized(client);
                 let c = &mut self.clients[client];
                 c.app.world_mut().resource_mut::<CEmitQueue>().0.push((kind, seq, sref, sref2));
